@@ -21,6 +21,7 @@ type vScenario struct {
 	want   []byte // complete, well-formed client stream
 	col    *proto.ColUInt64
 	gates  [][2]int // the server answers only what it has a reason to answer
+	conn   *vConn   // set once the connection exists (the yielding column looks at it)
 }
 
 func vMakeScenario(kind, v int) *vScenario {
@@ -43,7 +44,17 @@ func vMakeScenario(kind, v int) *vScenario {
 		in := new(proto.ColUInt64)
 		x := verifU64("cell")
 		in.Append(x)
-		s.q = Query{Body: "INSERT", QueryID: "q1", Input: proto.Input{{Name: "a", Data: in}}}
+		// the caller's column type may itself be a scheduling point while a block is being chained
+		// (a column that fetches its data lazily): whatever arrives meanwhile, nothing of a failed
+		// query may stay queued in the client
+		s.col = in
+		s.q = Query{Body: "INSERT", QueryID: "q1", Input: proto.Input{{Name: "a", Data: vYieldCol{ColUInt64: in, pause: func() {
+			// long enough for the other goroutines to take in whatever the server has sent meanwhile
+			for i := 0; i < 50 && s.conn != nil && s.conn.rpos < len(s.conn.script); i++ {
+				verifYield()
+			}
+			verifSettle()
+		}}}}}
 		rq.body = "INSERT"
 		want.query(rq, v)
 		want.data("", nil, v, false)
@@ -57,6 +68,19 @@ func vMakeScenario(kind, v int) *vScenario {
 	}
 	s.script, s.want = script.b, want.b
 	return s
+}
+
+// vYieldCol is a user-defined input column whose WriteColumn lets other goroutines run.
+type vYieldCol struct {
+	*proto.ColUInt64
+	pause func() // what the column does while it "fetches" its data
+}
+
+func (c vYieldCol) WriteColumn(w *proto.Writer) {
+	if c.pause != nil {
+		c.pause()
+	}
+	c.ColUInt64.WriteColumn(w)
 }
 
 // vAfterFailure asserts the C04 post-condition on a client whose query just failed.
@@ -99,6 +123,7 @@ func VerifC04Faults() {
 	conn := vNewConn(s.script)
 	conn.maxIdle = 1
 	conn.gates = s.gates
+	s.conn = conn
 	c := vNewClient(conn, v, proto.CompressionDisabled, compress.None, nil)
 	switch verifChoice("fault", 6) {
 	case 0: // server stream cut after byte k
